@@ -226,6 +226,17 @@ func init() {
 				v.OmitEmptyTree = layout == "both"
 				out = append(out, v)
 			}
+			// what no chosen root reaches must not matter: HEAD detached at a commit no reference reaches, a reflog
+			// naming it, an index naming its tree, unreachable loose objects
+			{
+				v := sc
+				v.Layout, v.Noise, v.Bare = "packrefs", true, false
+				v.Dates = make([]int64, n)
+				for i, pi := range rng.Perm(n) {
+					v.Dates[i] = int64(1000000000 + 1000*pi)
+				}
+				out = append(out, v)
+			}
 			// the same roots supplied as ROOT arguments, in both orders (references then stay unwalked)
 			for _, rev := range []bool{false, true} {
 				v := sc
